@@ -641,10 +641,12 @@ def execute(case, R, workdir, mode="inproc", load=False):
             rc, text, err = run_cli(case, path, yaml_path)
             if rc != 0:
                 R.case(ident)
+                # same mechanism key as common.exception_key gives in-process: type @ innermost osaca function
                 key = "cli/exit-%d" % rc
-                m = re.findall(r"^(\w+(?:Error|Exception))\b", err, re.M)
-                if m:
-                    key += "/" + m[-1]
+                m = re.findall(r"^(\w+(?:Error|Exception|Interrupt))\b", err, re.M)
+                fr = re.findall(r'File ".*?/osaca/(?:[\w/]*/)?(\w+)\.py", line \d+, in (\w+)', err)
+                if m and fr:
+                    key = "exception/%s@%s.%s" % (m[-1], fr[-1][0], fr[-1][1])
                 R.violation(key, "python -m osaca exited %d: %s" % (rc, err.strip()[-300:]), dict(case, mode="cli"))
                 return
             d = load_yaml(yaml_path)
